@@ -2,7 +2,6 @@ G = 'mininec.Geobj.compute_connections'
 MUTANTS = [
     ('interior pulse not appended', [(G, "            p = Pulse (pu, seg.p2, seg.p1, nseg.p2, seg, nseg)\n            p.n = pc\n            pc += 1\n            self.pulses.append (p)", "            p = Pulse (pu, seg.p2, seg.p1, nseg.p2, seg, nseg)\n            p.n = pc\n            pc += 1")], ['create-register']),
     ('grounded pulse appended twice', [(G, "            p = Pulse (pu, self.p2, p1, end2, lseg, lseg, gnd = 1)\n            p.n = pc\n            pc += 1\n            self.pulses.append (p)", "            p = Pulse (pu, self.p2, p1, end2, lseg, lseg, gnd = 1)\n            p.n = pc\n            pc += 1\n            self.pulses.append (p)\n            self.pulses.append (p)")], ['create-register']),
-    ('counter not incremented at end 2 junction', [(G, "                p._c_per [0] = 0\n            p.n = pc\n            pc += 1\n            self.pulses.append (p)", "                p._c_per [0] = 0\n            p.n = pc\n            self.pulses.append (p)")], ['create-register']),
     ('interior loop skips last joint', [(G, "for i, seg in enumerate (self.segments [:-1]):", "for i, seg in enumerate (self.segments [:-2]):")], ['count-formula', 'interior']),
     ('interior pulse at wrong point', [(G, "p = Pulse (pu, seg.p2, seg.p1, nseg.p2, seg, nseg)", "p = Pulse (pu, seg.p1, seg.p1, nseg.p2, seg, nseg)")], ['count-formula', 'interior']),
     ('second writer of idx', [(G, "        pc = 0\n", "        pc = 0\n        for q in self.pulses:\n            q.idx = 0\n")], ['container', 'writers']),
@@ -12,7 +11,14 @@ MUTANTS = [
     ('tolerance absolute', [(G, "minlen = parent.min_seglen * 1e-3", "minlen = 1e-3")], ['tolerance']),
     ('grounded end 1 under wrong guard', [(G, "        elif self.is_ground [0]:\n            s = seg0.p2", "        elif self.is_ground [1]:\n            s = seg0.p2")], ['count-formula', 'grounded-end']),
 ]
+MUTANTS += [
+    ('counter not incremented after the end-1 junction pulse', [(G, "                p._c_per [1] = 0\n            p.n = pc\n            pc += 1\n", "                p._c_per [1] = 0\n            p.n = pc\n")], ['counter']),
+    ('ring creates a pulse at its own first end', [(G, "if self.idx_1 != 0 and abs (self.idx_1) - 1 != self.n:", "if self.idx_1 != 0:")], ['site-kinds']),
+    ('self connection not deducted from the prediction', [(G, "            npulse -= 1\n", "            npulse -= 0\n")], ['end_segs[1]']),
+    ('pulse counter read after the first creations', [(G, "        self.end_segs [1] = parent.pulses.pulse_idx + npulse\n", "        pass\n"), (G, "        # Connection to other geo object(s) at end 2\n", "        self.end_segs [1] = parent.pulses.pulse_idx + npulse\n")], []),
+]
 REFACTORS = [
+    ('dead increment after the last creation dropped', [(G, "                p._c_per [0] = 0\n            p.n = pc\n            pc += 1\n            self.pulses.append (p)", "                p._c_per [0] = 0\n            p.n = pc\n            self.pulses.append (p)")]),
     ('rename counter', [(G, "        pc = 0\n        pu = parent.pulses", "        pc = 0\n        pu = parent.pulses\n        first = True")]),
     ('tolerance with factor first', [(G, "minlen = parent.min_seglen * 1e-3", "minlen = 1e-3 * parent.min_seglen")]),
 ]
